@@ -138,7 +138,8 @@ Space ==
          [sid |-> {"quad", "xlin", "vec"}, eo |-> {0, 1},
           tr |-> {<<"same", 0>>, <<"swap", 0>>, <<"rename", 0>>, <<"shift", 1>>, <<"shift", 2>>, <<"reverse", 0>>, <<"combo", 2>>,
                   <<"lo", 1>>, <<"add", 1>>, <<"scale", 2>>},
-          l |-> {LInt(n) : n \in {-2, 0, 1}}, u |-> {LInt(n) : n \in {-1, 3, 4}}, P |-> SUBSET Fields, ord |-> {"asc", "desc", "rot"},
+          l |-> {LInt(n) : n \in (IF L > 4 THEN {-2, 0, 1} ELSE {-2, 1})}, u |-> {LInt(n) : n \in (IF L > 4 THEN {-1, 3, 4} ELSE {3})},
+          P |-> SUBSET Fields, ord |-> {"asc", "desc", "rot"},
           tol |-> {"default"}, cut |-> {Cut}, fa |-> {"none"}, fs |-> {"none"}, fk |-> {0}, xs |-> {"frac"}]
     [] Part = "tol" ->
          [sid |-> {"lin", "xlin", "cplx", "vec", "geo", "cvec"}, eo |-> {0},
@@ -154,9 +155,10 @@ Space ==
           P |-> {Fields}, ord |-> {"asc"}, tol |-> {"default", "milli"}, cut |-> {Cut, Cut + 4},
           fa |-> {"none"}, fs |-> {"none"}, fk |-> {0}, xs |-> {"frac"}]
     [] Part = "err" ->
-         [sid |-> {"xlin", "ivar", "vec"}, eo |-> {0, 1}, tr |-> {<<"same", 0>>, <<"rename", 0>>, <<"shift", 1>>},
-          l |-> {LInt(-1), LInt(4)}, u |-> {LInt(3)}, P |-> SUBSET Fields, ord |-> {"asc"}, tol |-> {"default"}, cut |-> {Cut},
-          fa |-> AuthorFaults, fs |-> StudentFaults, fk |-> {2, 5}, xs |-> {"frac", "int"}]
+         [sid |-> (IF L > 4 THEN {"xlin", "ivar", "vec"} ELSE {"xlin", "ivar"}), eo |-> {0, 1}, tr |-> {<<"same", 0>>, <<"shift", 1>>},
+          l |-> (IF L > 4 THEN {LInt(-1), LInt(4)} ELSE {LInt(-1)}), u |-> {LInt(3)}, P |-> SUBSET Fields, ord |-> {"asc"},
+          tol |-> {"default"}, cut |-> {Cut}, fa |-> AuthorFaults, fs |-> StudentFaults, fk |-> (IF L > 4 THEN {2, 5} ELSE {2}),
+          xs |-> {"frac", "int"}]
     [] Part = "algebra" ->
          [sid |-> DOMAIN Catalogue \ {"fact"}, eo |-> 0..2, tr |-> {<<"same", 0>>}, l |-> Lims \cup {PInf, NInf}, u |-> Lims \cup {PInf, NInf},
           P |-> {Fields}, ord |-> {"asc"}, tol |-> {"default"}, cut |-> {Cut}, fa |-> {"none"}, fs |-> {"none"},
@@ -175,6 +177,10 @@ Sensible(x) ==
   /\ Part = "algebra" => /\ ~(IsInf(x.l) /\ x.u.k = x.l.k)
                          /\ GeoLike(x.sid) => ~IsInf(x.l) /\ ~IsInf(x.u)
   /\ x.fs = "uses_c" => x.sid = "ivar"
+  \* faults mostly one at a time; a few combinations of an author's fault with a fault in the submission
+  /\ x.fa # "none" => x.fs \in {"none", "blank_lower", "half_upper", "var_pi", "pole"}
+  /\ x.xs = "int" => x.fs = "xdep_upper"
+  /\ x.eo = 1 => x.fs = "pole" \/ x.fa = "pole" \/ (x.fs = "none" /\ x.fa = "none")
   /\ x.fs \in {"var_pi", "var_i", "var_sin", "var_x"} \/ x.fa \in {"var_i", "var_x", "var_c"} => x.tr[1] \in {"same", "shift"}
   /\ x.fs = "unknown_var" \/ x.fa = "unknown_var" => x.tr[1] \in {"same", "shift"}
 
